@@ -120,6 +120,14 @@ func vpC31GenDate() *rapid.Generator[vpC31Date] {
 		} else {
 			year = rapid.IntRange(0, 9999).Draw(t, "year")
 		}
+		if rapid.IntRange(0, 7).Draw(t, "leapcorner") == 0 {
+			// the Gregorian rule, by construction: end of February in every century year and in any year
+			mon = 1
+			day = rapid.SampledFrom([]int{28, 29, 29, 29, 30}).Draw(t, "leapday")
+			if rapid.Bool().Draw(t, "centuryyear") {
+				year = 100 * rapid.IntRange(0, 99).Draw(t, "century")
+			}
+		}
 		hh := rapid.IntRange(0, 23).Draw(t, "hh")
 		mm := rapid.IntRange(0, 59).Draw(t, "mm")
 		ss := rapid.IntRange(0, 59).Draw(t, "ss")
